@@ -53,3 +53,12 @@ CHECKS['C16'] = dict(
          'spelling with homogeneous accidentals.',
     note='Trusted: Python str semantics (replace, join, lower/upper, repetition). Mixed accidental runs are outside the quantified domain.',
 )
+
+CHECKS['C15'] = dict(
+    category='other',
+    technique='effect analysis of Document.to_transposed (write to the source through the shallow clone) + call-argument origin check of the transpose delegation + class-coverage of the isinstance dispatch read from the listener',
+    text='Decides the structural clauses of C15: no write to the source (today violated: known finding F10), interval/direction delegation '
+         'to transposer.transpose with Humdrum formats, carry-over of non-pitch sub-tokens and signifiers, ValueError validation before any '
+         'work, coverage of every pitch-bearing token class (ChordToken missing: F11a) and participation of the accidental (F11b).',
+    note='The arithmetic is C09 + C16. Not decided: grid equality on all documents. The three known findings are the classes the property text itself tracks.',
+)
